@@ -41,6 +41,8 @@ class CounterFlow:
         self._body_cache = {}
 
     # ------------------------------------------------------------------
+    BUDGET = 60000      # analyses per instance; the checks need a few hundred on the tree as it is
+
     def summary(self, fn, const_args=()):
         """frozenset of net vectors over success (non-error, non-panicking) paths.  Recursive
         cycles are solved by fixpoint iteration from the empty set at the cycle head; a value
@@ -58,6 +60,11 @@ class CounterFlow:
         low = my_idx
         while True:
             self.lowlink.append(my_idx)
+            self._analyses = getattr(self, "_analyses", 0) + 1
+            if self._analyses > self.BUDGET:
+                from .core import CheckError
+                raise CheckError("the counter dataflow over the emitted templates does not converge within its budget "
+                                 "(%d analyses; last: %s): fail closed rather than run on" % (self._analyses, fn.path.split("::", 1)[-1][:80]))
             res = self.analyze(fn, const_args)
             low = min(low, self.lowlink.pop())
             ok = frozenset(v for v, err in res.exits if not err)
